@@ -39,7 +39,7 @@ def configs(tier, seed):
         if k in seen:
             continue
         seen.add(k)
-        if tier == "quick" and len(seen) % 2:
+        if len(seen) % 2:
             continue
         out.append(dict(base, ov=None, miter=[0, 1, 2, 3] if tier == "thorough" else [0, 1]))
     return out
